@@ -59,6 +59,13 @@ func (k *Keeper) TimeoutPacket(
 		)
 	}
 
+	// the timeout is evaluated against the proof height, so the proof height must be a height the
+	// client can actually vouch for. This matters for clients that do not bind proofs to a stored
+	// consensus state (e.g. localhost), where any height would otherwise be accepted.
+	if latestHeight := k.clientKeeper.GetClientLatestHeight(ctx, connectionEnd.ClientId); proofHeight.GT(latestHeight) {
+		return "", errorsmod.Wrapf(clienttypes.ErrInvalidHeight, "proof height %s is greater than the latest height %s of client %s", proofHeight, latestHeight, connectionEnd.ClientId)
+	}
+
 	// check that timeout height or timeout timestamp has passed on the other end
 	proofTimestamp, err := k.clientKeeper.GetClientTimestampAtHeight(ctx, connectionEnd.ClientId, proofHeight)
 	if err != nil {
